@@ -265,7 +265,7 @@ func init() {
 			}},
 			{Name: "object-functions-on-arrays", Quick: []int{1}, ShardDepth: 3, Run: func(c *explore.Chooser, x *explore.Ctx, _ int) {
 				o1, o2 := c14Object(c), c14Object(c)
-				fn := c.Choose(5)
+				fn := c.Choose(6)
 				key := "a"
 				if fn == 4 {
 					key = []string{"a", "b", "c"}[c.Choose(3)]
@@ -273,6 +273,19 @@ func init() {
 				c.Done()
 				doc := map[string]interface{}{"a": []interface{}{o1, o2}}
 				switch fn {
+				case 5: // the same object at two positions of the array: its later position still takes precedence
+					m := map[string]interface{}{}
+					for _, o := range []map[string]interface{}{o1, o2, o1} {
+						for k, v := range o {
+							m[k] = v
+						}
+					}
+					d2 := map[string]interface{}{"p": o1, "q": o2}
+					if len(o1) == 0 || len(o2) == 0 {
+						return // an empty object selected by a path is still an object, but [p, q, p] then has fewer items: covered by case 0
+					}
+					c14Unordered(x, "$merge([p, q, p])", d2, m, false)
+					c14Unordered(x, "($o := p; $merge([$o, q, $o]))", d2, m, false)
 				case 4: // $lookup over an array of objects equals the field selection, whenever some object has the member
 					sel := rpath(rname("a"), rname(key))
 					want, werr := ref.Eval(sel, doc, ref.NewEnv(doc))
